@@ -386,6 +386,8 @@ fn json_number_text(max_digits: usize) -> BoxedStrategy<String> {
             1 => (-3i64..=3).prop_map(move |d| Some(limit + d)),
             1 => (-3i64..=3).prop_map(move |d| Some(-limit + d)),
             1 => prop_oneof![Just(i64::MAX), Just(i64::MIN), Just(i64::MAX - 1), Just(i64::MIN + 1)].prop_map(Some),
+            1 => gen::pow2_scale().prop_map(Some),
+            1 => (1i64..=4, -150_010i64..=150_010, any::<bool>()).prop_map(|(m, d, neg)| { let v = m * (1i64 << 32) + d; Some(if neg { -v } else { v }) }),
         ],
         0..3u8,
         any::<bool>(),
